@@ -38,19 +38,29 @@ Bad == <<New("", "0xg", "", "", "", "1"), New("", "0x1z", "", "", "", "2"), New(
          New("", "0xb", "", "", "", "2") @@ [language |-> "ENGLISH"], New("15", "", "", "", "", "") @@ [language |-> "English"],
          New("", "", "", "", "", "") @@ [language |-> "englis"], New("", "", "", "", "", "") @@ [language |-> " english"]>>
 BadAt(j) == NItem("refused", Bad[j], <<>>, -1)
+\* every character U+0001..U+00FF as the only digit and as the second digit of the prefix (an argument cannot contain
+\* NUL): exactly the 22 hexadecimal digits are digits - not their neighbours in ASCII, not control characters that
+\* differ from a digit in one bit, not Latin-1 letters
+NEveryChar == 2 * 255
+EveryCharAt(j) ==
+  LET cp == 1 + ((j - 1) % 255)
+      pre == IF j <= 255 THEN "0x" ELSE "0xa"
+  IN  NItem("every_character", New("", pre \o CpsToStr(<<cp>>), "", "", "", IF j % 2 = 0 THEN "1" ELSE "0"), <<>>, -1)
 O1 == NSingle
 O2 == O1 + NTwo
 O3 == O2 + NThree
 O4 == O3 + NVariants
 O5 == O4 + NRepeat
-Count == O5 + Len(Bad)
+O6 == O5 + Len(Bad)
+Count == O6 + NEveryChar
 ItemAt(g) ==
   IF g <= O1 THEN SingleAt(g)
   ELSE IF g <= O2 THEN TwoAt(g - O1)
   ELSE IF g <= O3 THEN ThreeAt(g - O2)
   ELSE IF g <= O4 THEN VariantAt(g - O3)
   ELSE IF g <= O5 THEN RepeatAt(g - O4)
-  ELSE BadAt(g - O5)
+  ELSE IF g <= O6 THEN BadAt(g - O5)
+  ELSE EveryCharAt(g - O6)
 VARIABLE n
 INSTANCE GenBase
 =============================================================================
